@@ -216,7 +216,7 @@ fn run(cx: &Cx) {
     if let Err(e) = agv_common::glue::sdl_equiv(s1::SDL, &schema.sdl()) {
         return cx.machinery_error(format!("S1's reference SDL and Schema::sdl() disagree: {e}"));
     }
-    let (nodes, deco, worldb) = if cx.quick() { (4, 1, 1) } else { (5, 2, 2) };
+    let (nodes, deco, worldb) = if cx.quick() { (4, 1, 1) } else { (5, 1, 1) };
     let gcfg = GenCfg { schema: &refs, fields: FIELDS, conds: CONDS, max_nodes: nodes, max_depth: 3, named_fragments: 2, deco: Some(Class::Dev(0)), typename: true, op: OpKind::Query, root_fragments: true };
     let cnt = Counters { not_doc: AtomicU64::new(0), invalid: AtomicU64::new(0), valid: AtomicU64::new(0), agree_nonempty: AtomicU64::new(0) };
     let ecfg = ExploreCfg { bounds: [deco, worldb, 0, 0], ..Default::default() };
